@@ -99,12 +99,14 @@ def validate_traces(paths, scratch, jobs=16):
 
 
 def model_check(module, cfg, scratch, workers=16, timeout=3600, heap="8g", extra=None, expect_violation=False,
-                simulate=None):
+                simulate=None, coverage=False):
     """Model-check an MC_* instance. Returns dict(states, transitions, ok, out, wall_s, gen=[...])."""
     meta = tempfile.mkdtemp(prefix="meta", dir=scratch)
     args = ["-workers", str(workers), "-metadir", meta, "-noGenerateSpecTE", "-config", cfg]
     if simulate:
         args += ["-simulate", simulate]
+    if coverage:
+        args += ["-coverage", "1"]
     args += (extra or []) + [module]
     rc, out, wall = _java(args, timeout=timeout, heap=heap, gcthreads=8)
     shutil.rmtree(meta, ignore_errors=True)
@@ -116,8 +118,13 @@ def model_check(module, cfg, scratch, workers=16, timeout=3600, heap="8g", extra
         raise MachineryError("TLC error on %s/%s (rc=%s)\n%s" % (module, cfg, rc, tail))
     if simulate is None and stats is None and not violated:
         raise MachineryError("no statistics from TLC for %s/%s" % (module, cfg))
+    cov = {}
+    if coverage:
+        for mm in re.finditer(r"^<(\w+) line (\d+), col (\d+) to line \d+, col \d+ of module \w+[^>]*>: (\d+):(\d+)", out, re.M):
+            key = mm.group(1) if mm.group(1) != "Next" else "Next@%s:%s" % (mm.group(2), mm.group(3))
+            cov[key] = max(cov.get(key, 0), int(mm.group(5)))
     return {"states": stats["distinct"] if stats else 0, "transitions": stats["generated"] if stats else 0,
-            "ok": ok, "violated": violated, "out": out, "wall_s": wall}
+            "ok": ok, "violated": violated, "out": out, "wall_s": wall, "coverage": cov}
 
 
 def gen_lines(out, tag="GEN"):
